@@ -116,6 +116,33 @@ func init() {
 				fmt.Printf("retrytiming maxduration/%v/%v invocations=%d lateStarts=%d err=%v %s\n", md, fnDur, inv, lateStarts, err != nil, verdict)
 			}
 		}
+		// (c) the delay never extends past the remaining max duration, also when the delay function itself takes time: at the
+		// moment OnRetryScheduled is told the delay, elapsed time + delay does not exceed the max duration (beyond a tolerance
+		// for the few instructions between the clamp and the listener call)
+		for _, fnTakes := range []time.Duration{0, 40 * ms} {
+			md := 300 * ms
+			start := time.Now()
+			over := 0
+			scheduled := 0
+			rp := retrypolicy.Builder[any]().WithMaxRetries(2).WithMaxDuration(md).
+				WithDelayFunc(func(failsafe.ExecutionAttempt[any]) time.Duration {
+					time.Sleep(fnTakes)
+					return time.Second // far more than what is left
+				}).
+				OnRetryScheduled(func(e failsafe.ExecutionScheduledEvent[any]) {
+					scheduled++
+					if time.Since(start)+e.Delay > md+15*ms {
+						over++
+					}
+				}).Build()
+			failsafe.Run(func() error { return errors.New("x") }, rp)
+			verdict := "ok"
+			if over > 0 || scheduled == 0 {
+				verdict = "VIOLATION"
+				bad++
+			}
+			fmt.Printf("retrytiming notbefore/clamp-after-delayfunc-%v scheduled=%d pastMaxDuration=%d %s\n", fnTakes, scheduled, over, verdict)
+		}
 		if bad > 0 {
 			return 1
 		}
